@@ -60,6 +60,27 @@ impl Part {
     pub fn new() -> Part {
         Part { variant: variant().to_string(), ..Default::default() }
     }
+    /// the part of a check that was written against a Report: its verdicts and numeric coverage
+    pub fn from_report(rep: &Report) -> Part {
+        let mut p = Part::new();
+        let num = |k: &str| rep.coverage.get(k).and_then(|v| v.as_u64()).unwrap_or(0);
+        p.evaluations = num("evaluations");
+        p.distinct = num("distinct_nontrivial");
+        for (k, v) in &rep.coverage {
+            if k != "evaluations" && k != "distinct_nontrivial" {
+                if let Some(n) = v.as_u64() {
+                    p.counts.insert(k.clone(), n);
+                }
+            }
+        }
+        p.violations = rep.violations.iter().take(50).cloned().collect();
+        p.machinery = rep.machinery.clone();
+        p.samples = rep.samples.iter().take(2).cloned().collect();
+        if rep.coverage.get("exhaustive") == Some(&serde_json::json!(false)) {
+            p.notes.push("a cap was hit in this variant".into());
+        }
+        p
+    }
     pub fn fail(&mut self, sig: String, replay: Value) {
         if self.violations.len() < 50 {
             self.violations.push((sig, replay));
@@ -291,6 +312,20 @@ pub fn replay(file: &str) -> i32 {
         return 2;
     };
     let prop = doc["property"].as_str().unwrap_or("");
+    // a violation found by another build of the harness is replayed by that build
+    if let Some(var) = doc["replay"]["variant"].as_str() {
+        if var != variant() {
+            if let Ok(me) = std::env::current_exe() {
+                let other = me.to_string_lossy().replace(&format!("/{}/", variant()), &format!("/{}/", var));
+                if other != me.to_string_lossy() && std::path::Path::new(&other).exists() {
+                    return match std::process::Command::new(&other).args(["replay", file]).status() {
+                        Ok(st) => st.code().unwrap_or(2),
+                        Err(_) => 2,
+                    };
+                }
+            }
+        }
+    }
     let tier = if doc["tier"] == "thorough" { Tier::Thorough } else { Tier::Quick };
     let _ = tier;
     match prop {
